@@ -22,6 +22,24 @@ CHECKS = {
         technique=SYMEX,
         ref="4 C03",
     ),
+    "C05": dict(
+        text="Bounded: for every import relation over trees of <= 5 (quick) / <= 6 (thorough) modules, seeded samples of partitions of pairwise-unrelated modules into 2-4 layers (all-named, all-regex, mixed; modules in no layer; layers the rule does not mention), all 12 access shapes + the two any-layer aliases and 1-2 object layers, the real LayerRule verdict equals the documented layer semantics (one z3 query per instance over the decision-tree summary).",
+        note="Trusted: SymDiGraph stub (validated on sampled paths and every model), z3, reference formula vf/oracles/layers.py. Regex layers are anchored alternations of the listed names.",
+        technique=SYMEX,
+        ref="4 C05",
+    ),
+    "C11": dict(
+        text="Bounded: on every import relation over 4-5 module trees, each rule written with have_name_matching / have_name_containing has the same verdict as the rule naming the list of matching modules (regex family over the tree's own names, subject or object side, all 12 shapes), a never-matching regex always yields ImpossibleMatch, and batches of 2-3 subjects (all shapes) / 2-3 objects (plain should / should_not), related modules included, equal the conjunction of the single rules; each obligation is one z3 query over two or more summaries of the real code on the same symbolic relation.",
+        note="Trusted: SymDiGraph stub, z3; the expansion is computed by the harness with re.match on the concrete names.",
+        technique=SYMEX,
+        ref="4 C11",
+    ),
+    "C12": dict(
+        text="Bounded: duality, negation, decomposition, alias (incl. message equality) and per-variable monotonicity laws as z3 queries over two or three decision-tree summaries of the real rules on the same symbolic import relation; every ordered pair of modules of 4-5 module trees as subject / object (identical, ancestor and descendant included), both filter kinds, two-subject batches.",
+        note="Trusted: SymDiGraph stub, z3. No reference semantics involved.",
+        technique=SYMEX,
+        ref="4 C12",
+    ),
 }
 
 NOT_YET = {}
